@@ -30,7 +30,8 @@ def gExtra (appid : Nat) : G ExtraData := do
   pure ⟨port, steamId, tvPort, tvName, keywords, gameId⟩
 
 def gAppid (engine : Engine) : G Nat := do
-  let other ← G.oneOf [0, 10, 65535, 70000, 16777215, 730, 740]
+  -- (2400 is The Ship: ids whose low 16 bits read 2400 belong to other games)
+  let other ← G.oneOf [0, 10, 65535, 70000, 16777215, 730, 740, 2400, 67936, 133472, 16714080]
   match engine with
   | .source (some (m, d)) =>
     let c ← G.below 6
